@@ -18,42 +18,49 @@
 (* the registration lifetime, so no clause here depends on a lifetime having just run out.       *)
 (*                                                                                              *)
 (* detail = <backend>:<history class>:<what the lookup said>                                     *)
-(*   history class (since x's latest handshake): "late" an older connection of x was closed /    *)
-(*   cleaned up, "ttl" at least one registration lifetime of ticks has passed, "late+ttl",       *)
-(*   "fresh" neither.                                                                            *)
+(*   history class (since x's latest successful handshake), flags joined by "+":                  *)
+(*   "lost" a handshake of x passed the credential check elsewhere but its response could not     *)
+(*   be delivered (not a successful handshake), "late" an older connection of x was closed /      *)
+(*   cleaned up, "ttl" at least one registration lifetime of ticks has passed; "fresh" = none.    *)
+(*   FindClosed / RouteClosed details end with the cause of the latest close of a connection of   *)
+(*   x: peer (read loop ended) | cmd (disconnect command) | sweep (heartbeat timeout) | kick.     *)
 EXTENDS VLib
 
 Conns   == {"c1", "c2", "c3", "c4"}
 Clients == {"X", "Y"}
 VARIABLES be, life, clk,
-          cs,      \* connection -> [st |-> "new"|"open"|"closed", node, auth]
+          cs,      \* connection -> [st |-> "new"|"open"|"dead"|"closed", node, auth]
           last,    \* client -> connection of its most recent successful handshake | "-"
           lastAt,  \* client -> clock of that handshake
           late,    \* client -> an older connection of it was closed since that handshake
+          lost,    \* client -> an undeliverable handshake of it happened since that handshake
+          cause,   \* client -> cause of the latest close of one of its connections
           hb, alive
-vars == <<l, viol, be, life, clk, cs, last, lastAt, late, hb, alive>>
+vars == <<l, viol, be, life, clk, cs, last, lastAt, late, lost, cause, hb, alive>>
 
 Fresh == [st |-> "new", node |-> "-", auth |-> "-"]
 Reset == /\ be' = "?" /\ life' = 2 /\ clk' = 0
          /\ cs' = [c \in Conns |-> Fresh]
          /\ last' = [x \in Clients |-> "-"] /\ lastAt' = [x \in Clients |-> 0]
-         /\ late' = [x \in Clients |-> FALSE]
+         /\ late' = [x \in Clients |-> FALSE] /\ lost' = [x \in Clients |-> FALSE]
+         /\ cause' = [x \in Clients |-> "-"]
          /\ hb' = [c \in Conns |-> FALSE] /\ alive' = [c \in Conns |-> FALSE]
 
 Init == /\ l = 1 /\ viol = {} /\ be = "?" /\ life = 2 /\ clk = 0
         /\ cs = [c \in Conns |-> Fresh]
         /\ last = [x \in Clients |-> "-"] /\ lastAt = [x \in Clients |-> 0]
-        /\ late = [x \in Clients |-> FALSE]
+        /\ late = [x \in Clients |-> FALSE] /\ lost = [x \in Clients |-> FALSE]
+        /\ cause = [x \in Clients |-> "-"]
         /\ hb = [c \in Conns |-> FALSE] /\ alive = [c \in Conns |-> FALSE]
 
 Step == l' = l + 1
 
 TrCfg == /\ Is("Cfg") /\ be' = Ev.be /\ life' = Ev.ttl /\ Step
-         /\ UNCHANGED <<viol, clk, cs, last, lastAt, late, hb, alive>>
+         /\ UNCHANGED <<viol, clk, cs, last, lastAt, late, lost, cause, hb, alive>>
 
 TrConnect == /\ Is("Connect") /\ Ev.c \in Conns
              /\ cs' = [cs EXCEPT ![Ev.c] = [st |-> "open", node |-> Ev.n, auth |-> "-"]]
-             /\ Step /\ UNCHANGED <<viol, be, life, clk, last, lastAt, late, hb, alive>>
+             /\ Step /\ UNCHANGED <<viol, be, life, clk, last, lastAt, late, lost, cause, hb, alive>>
 
 \* a successful control handshake of client x on connection c at node n; "evicted" lists the
 \* connections whose transport the server closed while handling it (observed by the driver)
@@ -64,44 +71,55 @@ TrAuth == /\ Is("Auth") /\ Ev.c \in Conns /\ Ev.x \in Clients
           /\ last' = [last EXCEPT ![Ev.x] = Ev.c]
           /\ lastAt' = [lastAt EXCEPT ![Ev.x] = clk]
           /\ late' = [late EXCEPT ![Ev.x] = FALSE]
+          /\ lost' = [lost EXCEPT ![Ev.x] = FALSE]
           /\ hb' = [hb EXCEPT ![Ev.c] = TRUE]
           /\ alive' = [alive EXCEPT ![Ev.c] = TRUE]
-          /\ Step /\ UNCHANGED <<viol, be, life, clk>>
+          /\ Step /\ UNCHANGED <<viol, be, life, clk, cause>>
+
+\* the credential check of x passed on connection c but the response could not be written: the
+\* peer is gone.  Not a successful handshake: x's location does not move.  The connection is dead
+\* (no longer "held" by the client) but the server has not closed it yet - that is the Close event.
+TrAuthLost == /\ Is("AuthLost") /\ Ev.c \in Conns /\ Ev.x \in Clients
+              /\ cs' = [cs EXCEPT ![Ev.c].st = "dead"]
+              /\ lost' = [lost EXCEPT ![Ev.x] = TRUE]
+              /\ Step /\ UNCHANGED <<viol, be, life, clk, last, lastAt, late, cause, hb, alive>>
 
 TrHB == /\ Is("HB") /\ Ev.c \in Conns
         /\ hb' = [hb EXCEPT ![Ev.c] = TRUE]
-        /\ Step /\ UNCHANGED <<viol, be, life, clk, cs, last, lastAt, late, alive>>
+        /\ Step /\ UNCHANGED <<viol, be, life, clk, cs, last, lastAt, late, lost, cause, alive>>
 
 TrClose == /\ Is("Close") /\ Ev.c \in Conns
            /\ cs' = [cs EXCEPT ![Ev.c].st = "closed"]
            /\ LET x == cs[Ev.c].auth IN
-              late' = IF x \in Clients /\ last[x] # Ev.c THEN [late EXCEPT ![x] = TRUE] ELSE late
-           /\ Step /\ UNCHANGED <<viol, be, life, clk, last, lastAt, hb, alive>>
+              /\ late' = IF x \in Clients /\ last[x] # Ev.c THEN [late EXCEPT ![x] = TRUE] ELSE late
+              /\ cause' = IF x \in Clients THEN [cause EXCEPT ![x] = Ev.why] ELSE cause
+           /\ Step /\ UNCHANGED <<viol, be, life, clk, last, lastAt, lost, hb, alive>>
 
 TrTick == /\ Is("Tick") /\ clk' = clk + 1
           /\ alive' = [c \in Conns |-> alive[c] /\ (cs[c].st # "open" \/ hb[c])]
           /\ hb' = [c \in Conns |-> FALSE]
-          /\ Step /\ UNCHANGED <<viol, be, life, cs, last, lastAt, late>>
+          /\ Step /\ UNCHANGED <<viol, be, life, cs, last, lastAt, late, lost, cause>>
 
 \* ---- what the statement demands right now ------------------------------------------------
 Connected(x) == last[x] # "-" /\ cs[last[x]].st = "open" /\ alive[last[x]]
 AllClosed(x) == last[x] # "-" /\ \A c \in Conns : cs[c].auth = x => cs[c].st = "closed"
 Class(x) == LET t == clk - lastAt[x] >= life
-            IN IF late[x] /\ t THEN "late+ttl" ELSE IF late[x] THEN "late" ELSE IF t THEN "ttl" ELSE "fresh"
+                base == IF late[x] /\ t THEN "late+ttl" ELSE IF late[x] THEN "late" ELSE IF t THEN "ttl" ELSE "fresh"
+            IN IF ~lost[x] THEN base ELSE IF base = "fresh" THEN "lost" ELSE "lost+" \o base
 
 FindBad(f) ==
   IF f.x \notin Clients THEN {}
   ELSE IF Connected(f.x)
        THEN IF f.r = "found" /\ f.node = cs[last[f.x]].node /\ f.conn = last[f.x] THEN {}
             ELSE {V("FindLive", be \o ":" \o Class(f.x) \o ":" \o (IF f.r = "found" THEN "wrong" ELSE f.r))}
-  ELSE IF AllClosed(f.x) /\ f.r = "found" THEN {V("FindClosed", be \o ":" \o Class(f.x) \o ":stale")}
+  ELSE IF AllClosed(f.x) /\ f.r = "found" THEN {V("FindClosed", be \o ":" \o Class(f.x) \o ":stale:" \o cause[f.x])}
   ELSE {}
 
 \* routing decision of SendCommandToClient(x) issued on node f.from:
 \*   "local" (delivered to a connection of this node), "forward" to f.node, "none" (refused)
 \* The demand concerns nodes that ask the shared store: a node that still holds an open
 \* (not yet cleaned up) older connection of x answers from its own registry - no demand there.
-StaleLocal(f) == \E c \in Conns : cs[c].auth = f.x /\ cs[c].st = "open" /\ cs[c].node = f.from /\ c # last[f.x]
+StaleLocal(f) == \E c \in Conns : cs[c].auth = f.x /\ cs[c].st \in {"open", "dead"} /\ cs[c].node = f.from /\ c # last[f.x]
 RouteBad(f) ==
   IF f.x \notin Clients \/ StaleLocal(f) THEN {}
   ELSE IF Connected(f.x)
@@ -110,17 +128,17 @@ RouteBad(f) ==
                 good == f.r = want /\ (want = "forward" => f.node = n)
             IN IF good THEN {}
                ELSE {V("RouteLive", be \o ":" \o Class(f.x) \o ":" \o want \o "->" \o f.r)}
-  ELSE IF AllClosed(f.x) /\ f.r # "none" THEN {V("RouteClosed", be \o ":" \o Class(f.x) \o ":" \o f.r)}
+  ELSE IF AllClosed(f.x) /\ f.r # "none" THEN {V("RouteClosed", be \o ":" \o Class(f.x) \o ":" \o f.r \o ":" \o cause[f.x])}
   ELSE {}
 
 TrObs == /\ Is("Obs")
          /\ viol' = viol \cup UNION {FindBad(Ev.finds[i]) : i \in DOMAIN Ev.finds}
                          \cup UNION {RouteBad(Ev.routes[i]) : i \in DOMAIN Ev.routes}
-         /\ Step /\ UNCHANGED <<be, life, clk, cs, last, lastAt, late, hb, alive>>
+         /\ Step /\ UNCHANGED <<be, life, clk, cs, last, lastAt, late, lost, cause, hb, alive>>
 
 TrEnd == /\ Is("End") /\ EmitVerdict
          /\ l' = l + 1 /\ viol' = {} /\ Reset
 
-Next == TrCfg \/ TrConnect \/ TrAuth \/ TrHB \/ TrClose \/ TrTick \/ TrObs \/ TrEnd
+Next == TrCfg \/ TrConnect \/ TrAuth \/ TrAuthLost \/ TrHB \/ TrClose \/ TrTick \/ TrObs \/ TrEnd
 Spec == Init /\ [][Next]_vars
 =============================================================================
